@@ -607,6 +607,41 @@ theorem write_other_register (p p' : Plan) (k k' : Kind) (periods : List Int) (n
   cases h
   exact set_get_other _ _ _ _ hk
 
+/-- **a read reflects every write made so far** (the registers are the only state): after an accepted write the row of
+name `i` is the old row with `some status` in the written periods if `i` was named, and the old row otherwise -/
+theorem write_row (p p' : Plan) (k : Kind) (periods : List Int) (names : List Nat) (st : Bool)
+    (h : p.write k periods names st = .ok p') (i : Nat) :
+    (p'.get k)[i]? = ((p.get k)[i]?).map fun row =>
+      if names.contains i then row.mapIdx (fun t s => if (periods.map Int.toNat).contains t then some st else s) else row := by
+  unfold Plan.write at h
+  simp only at h
+  split_ifs at h with h1 h2
+  cases h
+  rw [set_get_same, List.getElem?_mapIdx]
+
+/-- cell level: the boolean array read after a write shows `status` in every written cell and the previous status elsewhere -/
+theorem write_cell (p p' : Plan) (k : Kind) (periods : List Int) (names : List Nat) (st : Bool)
+    (h : p.write k periods names st = .ok p') (i t : Nat) (row : List Status) (s : Status)
+    (hrow : (p.get k)[i]? = some row) (hcell : row[t]? = some s) :
+    ∃ row', (p'.get k)[i]? = some row' ∧
+      row'[t]? = some (if names.contains i ∧ (periods.map Int.toNat).contains t then some st else s) := by
+  have hr := write_row p p' k periods names st h i
+  rw [hrow, Option.map_some] at hr
+  by_cases hn : names.contains i = true
+  · refine ⟨_, hr, ?_⟩
+    simp only [hn, if_true, List.getElem?_mapIdx, hcell, Option.map_some, true_and]
+  · refine ⟨_, hr, ?_⟩
+    rw [if_neg hn, hcell, if_neg (fun h => hn h.1)]
+
+/-- a write keeps the plan span -/
+theorem write_numPeriods (p p' : Plan) (k : Kind) (periods : List Int) (names : List Nat) (st : Bool)
+    (h : p.write k periods names st = .ok p') : p'.numPeriods = p.numPeriods := by
+  unfold Plan.write at h
+  simp only at h
+  split_ifs at h with h1 h2
+  cases h
+  exact set_numPeriods _ _ _
+
 /-- an invalid name or an out-of-span period rejects the whole call: nothing is written -/
 theorem write_rejects (p : Plan) (k : Kind) (periods : List Int) (names : List Nat) (st : Bool)
     (h : (names.any fun n => (p.get k).length ≤ n) = true ∨
